@@ -174,6 +174,10 @@ var c10Queries2 = []string{
 	"SELECT * FROM nosuch x JOIN t y ON x.a = y.a",
 	"SELECT * FROM t x JOIN nosuch y ON x.a = y.a",
 	"SELECT * FROM `t.arr` x JOIN t y ON x.a = y.a",
+	// a CTE referring to itself from a subquery expression (through the navigation marker)
+	"WITH c AS (SELECT a, (SELECT COUNT(*) AS n FROM `<-`.c) AS n FROM t) SELECT * FROM c",
+	"WITH c AS (SELECT a FROM t WHERE a IN (SELECT a FROM `<-`.c)) SELECT * FROM c",
+	"WITH c AS (SELECT a FROM t WHERE EXISTS (SELECT a FROM `<-`.d)), d AS (SELECT a FROM t WHERE EXISTS (SELECT a FROM `<-`.c)) SELECT * FROM c",
 	// expressions evaluated by post processors (AWAIT reads its arguments after the row loop)
 	"SELECT AWAIT(ELEMENTAT(arr, -1)) AS x FROM t",
 	"SELECT AWAIT(ELEMENTAT(arr, 7)) AS x, AWAIT(a DIV 0) AS y FROM t",
@@ -389,6 +393,7 @@ func H_C10_reexec() {
 		"a": Map{"b": a},
 	}
 	RegisterFunction("vfail", failingFunc)
+	verif.Opt("recursion-is-violation", 1) // unbounded recursion is a stack overflow, not an exploration bound
 	// one schedule: the subject is what a failed execution leaves behind, not the interleaving
 	var opts []QueryOption
 	if withVars == 1 {
